@@ -1673,12 +1673,17 @@ func (*Context).Run
   ensures ctx.Error == nil ==> len(ctx.stack) == 1000 && 0 <= ctx.top && ctx.top <= 1000 && (ctx.top > 0 ==> wfValue(&ctx.stack[ctx.top-1]))
 
 func (*VMValue).FuncInvokeRaw
-  props C07 C06 C05 C01 C15 C16
+  props C07 C06 C05 C01 C15 C16 C09
   requires ctx != nil && v.TypeId == VMTypeFunction && 0 <= ctx.NumOpCount && ctx.NumOpCount <= math.MaxInt64 - 100
   requires ctx.Attrs != nil
   ghost at precall 1 vm.evaluate: ghostAssume(0 <= vm.codeIndex && vm.codeIndex <= len(vm.code) && forall(0, vm.codeIndex, func(k int) bool { return wfInstr(&vm.code[k], k, vm.codeIndex) }) && forall(0, vm.codeIndex, func(k int) bool { return implies(vm.code[k].T == typeDetailMark, 0 <= vm.code[k].Value.(BufferSpan).Begin && vm.code[k].Value.(BufferSpan).Begin <= vm.code[k].Value.(BufferSpan).End && vm.code[k].Value.(BufferSpan).End <= IntType(len(vm.parser.data))) }), "the cached code of a function body was compiled by this package's parser from cd.Expr (well-formed, detail spans rebased into the body text: C08)")
   ghost at precall 1 vm.evaluate: ghostAssert(specInherits(vm, ctx))
   ghost at precall 1 vm.Run: ghostAssert(specInherits(vm, ctx))
+  // whichever way the body is compiled or run, it is under the parent's configuration (optional hooks: they fire only if such a call exists)
+  ghost at precall? 1 vm.Parse: ghostAssert(specInherits(vm, ctx))
+  ghost at precall? 1 vm.RunAfterParsed: ghostAssert(specInherits(vm, ctx))
+  ghost at precall? 2 vm.Run: ghostAssert(specInherits(vm, ctx))
+  ghost at precall? 2 vm.evaluate: ghostAssert(specInherits(vm, ctx))
   ensures [C07] result != nil ==> ctx.NumOpCount == vm.NumOpCount
   ensures result == nil ==> ctx.Error != nil
   loop 1
@@ -1689,11 +1694,16 @@ func (*Context).makeDetailStr
   noverify
 
 func (*VMValue).ComputedExecute
-  props C07 C06 C05 C01 C15 C16
+  props C07 C06 C05 C01 C15 C16 C09
   requires ctx != nil && v.TypeId == VMTypeComputedValue && 0 <= ctx.NumOpCount && ctx.NumOpCount <= math.MaxInt64 - 100
   ghost at precall 1 vm.evaluate: ghostAssume(0 <= vm.codeIndex && vm.codeIndex <= len(vm.code) && forall(0, vm.codeIndex, func(k int) bool { return wfInstr(&vm.code[k], k, vm.codeIndex) }) && forall(0, vm.codeIndex, func(k int) bool { return implies(vm.code[k].T == typeDetailMark, 0 <= vm.code[k].Value.(BufferSpan).Begin && vm.code[k].Value.(BufferSpan).Begin <= vm.code[k].Value.(BufferSpan).End && vm.code[k].Value.(BufferSpan).End <= IntType(len(vm.parser.data))) }), "the cached code of a computed value was compiled by this package's parser from cd.Expr (well-formed, detail spans rebased into the expression text: C08)")
   ghost at precall 1 vm.evaluate: ghostAssert(specInherits(vm, ctx))
   ghost at precall 1 vm.Run: ghostAssert(specInherits(vm, ctx))
+  // whichever way the body is compiled or run, it is under the parent's configuration (optional hooks: they fire only if such a call exists)
+  ghost at precall? 1 vm.Parse: ghostAssert(specInherits(vm, ctx))
+  ghost at precall? 1 vm.RunAfterParsed: ghostAssert(specInherits(vm, ctx))
+  ghost at precall? 2 vm.Run: ghostAssert(specInherits(vm, ctx))
+  ghost at precall? 2 vm.evaluate: ghostAssert(specInherits(vm, ctx))
   ensures [C07] result != nil ==> ctx.NumOpCount == vm.NumOpCount
   ensures result == nil ==> ctx.Error != nil
 
